@@ -1175,12 +1175,29 @@ def entryBase (s : ESt) (d : Nat) (F0 : EFrame) : ESt :=
     enableCached := s.enableCached, finished := s.finished, pend := s.pend, winited := s.winited,
     wcpu := s.wcpu, wcopy := s.wcopy, glob := s.glob, out := s.out }
 
+/-- the filter-free part of the state between hooks at depth `d` -/
+structure GoodB (s : ESt) (d : Nat) : Prop where
+  over : s.over = 0
+  len : s.frames.length = d
+  ridx : s.recordIdx = d
+  en : s.enabled = true
+  inc : s.filt.inCount = 0
+  outc : s.filt.outCount = 0
+  fdepth : s.filt.depth = d
+  fmax : s.filt.maxDepth = noMaxDepth
+  ftime : s.filt.time = noTime
+  fsize : s.filt.size = 0
+  noskip : NoSkipE s.frames
+
+theorem GoodT.toB {s : ESt} {d : Nat} (h : GoodT s d) : GoodB s d :=
+  ⟨h.over, h.len, h.ridx, h.en, h.inc, h.outc, h.fdepth, h.fmax, h.ftime, h.fsize, h.noskip⟩
+
 theorem entryE_T_unfold (cfg : ECfg) (hp : PlainT cfg) (k : Kind) (s : ESt) (d f t0 : Nat) (o : Obs)
-    (hg : GoodT s d) (hm : d < cfg.base.maxStack) (hd : d < cfg.base.depthOpt) :
+    (hg : GoodB s d) (hm : d < cfg.base.maxStack) (hd : d < cfg.base.depthOpt) :
     entryE cfg k s f t0 o =
       (entryFinish cfg (entryBase s d { b := { addr := f, start := t0, depth := d, cyg := k == .cyg } })
         (entryFrame cfg k f t0 d o) s.frames o, true) := by
-  obtain ⟨h1, h2, h3, h4, h5, h6, h7, h8, h9, h10, h11, h12⟩ := hg
+  obtain ⟨h1, h2, h3, h4, h5, h6, h7, h8, h9, h10, h11⟩ := hg
   have hidx : ¬ (s.idx ≥ cfg.base.maxStack) := by simp [ESt.idx, h1, h2]; omega
   have hnd : ¬ (d ≥ cfg.base.depthOpt) := by omega
   cases k <;>
@@ -1197,7 +1214,7 @@ theorem entryE_T (cfg : ECfg) (hp : PlainT cfg) (k : Kind) (s : ESt) (d f t0 : N
     (∃ W, (entryE cfg k s f t0 o).1.pend = s.pend ++ W ∧
       ∀ e ∈ W, IsWatchEv (watchTime (plainFrame k f t0 d) s.winited) (watchTag cfg d) e) ∧
     GoodT (entryE cfg k s f t0 o).1 (d + 1) := by
-  rw [entryE_T_unfold cfg hp k s d f t0 o hg hm hd]
+  rw [entryE_T_unfold cfg hp k s d f t0 o hg.toB hm hd]
   obtain ⟨h1, h2, h3, h4, h5, h6, h7, h8, h9, h10, h11, h12⟩ := hg
   have hmax := hp.maxs
   have hFb := entryFrame_b cfg k f t0 d o
